@@ -567,7 +567,7 @@ func c06Matchers(w *World, r *Report) {
 				}
 				return
 			}
-			c, isCall := rres(path, rt)[0].(*ssa.Call)
+			c, isCall := rt.Results[0].(*ssa.Call) // the membership call itself, not what a walked-through helper returned
 			if !isCall || len(c.Call.Args) != 2 || !membershipOK(c.Call.StaticCallee()) || w.nf(c.Call.Args[0], 0) != "param:m" {
 				bad = "the result is not membership of the stanza's type in the configured types"
 				return
@@ -640,7 +640,7 @@ func c06Matchers(w *World, r *Report) {
 				}
 				return
 			}
-			c, isCall := rres(path, rt)[0].(*ssa.Call)
+			c, isCall := rt.Results[0].(*ssa.Call) // the membership call itself, not what a walked-through helper returned
 			if !isCall || len(c.Call.Args) != 2 || !membershipOK(c.Call.StaticCallee()) || w.nf(c.Call.Args[0], 0) != "param:m" {
 				bad = "the result is not membership of the payload namespace in the configured namespaces"
 				return
